@@ -15,6 +15,7 @@ for p in $PROPS; do
   cd /verif && PYVC_REPO=$D/repo PYVC_OUT=$D/out timeout 3000 python3-vt -m pyvc.cli $p --tier quick > $D/out/$p.log 2>&1
   rc=$?
   echo "SEED $S check=$p exit=$rc $(grep -c '^VIOLATION' $D/out/$p.log) violation-lines"
-  grep '^VIOLATION\|UNDECIDED\|^ERROR' $D/out/$p.log | cut -c1-260 | head -6
+  grep '^VIOLATION' $D/out/$p.log | cut -c1-300 | head -8
+  grep '^UNDECIDED\|^ERROR\|^CHECKER' $D/out/$p.log | cut -c1-260 | head -3
 done
 rm -rf $D
